@@ -130,7 +130,7 @@ static int cmp_triple(const char *api,const char *ctx,int pi,const pref *p,int r
    MC_ADD(c_samples,n); MC_ADD(c_clipchg,chg); MC_ADD(c_sat16,sat); MC_ADD(c_over24,ov);
    if(nz){ uint64_t h=mc_hash(of,sizeof(float)*n,gf); if(mc_set_add(S_obs,h)){ MC_INC(c_states); MC_INC(c_dn);
       if(mc_set_add(S_cls,mc_mix(mc_hash(api,strlen(api),1),mc_mix((p->d[0]>>3)*4+nch,(chg>0)*4+(sat>0)*2+(ov>0)))))
-         if(MC_INC(c_nsmp)<5) mc_sample("%s: %s packet %d (kind %d, TOC %02x, len %d) -> %d samples x %d ch, final range %08x; %ld samples changed by soft clip, %ld saturated at 16 bits, %ld beyond 2^23 in 24 bits; e.g. float %.7g -> 24-bit %d, 16-bit %d",api,ctx,pi,p->kind,p->d[0],p->len,rf,nch,gf,chg,sat,ov,(double)of[n/2],o24[n/2],o16[n/2]); } }
+         if(MC_INC(c_nsmp)<4) mc_sample("%s: %s packet %d (kind %d, TOC %02x, len %d) -> %d samples x %d ch, final range %08x; %ld samples changed by soft clip, %ld saturated at 16 bits, %ld beyond 2^23 in 24 bits; e.g. float %.7g -> 24-bit %d, 16-bit %d",api,ctx,pi,p->kind,p->d[0],p->len,rf,nch,gf,chg,sat,ov,(double)of[n/2],o24[n/2],o16[n/2]); } }
    return 1;
 }
 
